@@ -1,6 +1,8 @@
 (* Proofs about the time allotment (engine/uci.go calcEndtime and the movetime path), model in Uci.v. *)
 From Coq Require Import ZArith Lia Bool ZifyBool.
-Require Import Base Generated Uci.
+From Coq Require Import String Ascii List.
+Require Import Base Generated Str Uci.
+Import ListNotations.
 Open Scope Z_scope.
 
 (* the allotment without machine-integer wrap-around *)
@@ -96,6 +98,38 @@ Proof.
     | match ?x <? 1 with _ => _ end = _ => destruct (x <? 1) eqn:?; [discriminate|]
     end; try discriminate; try (injection H as <-; exact Ha); try (eapply IH; [|exact H]; cbn; lia).
 Qed.
+(* "no movetime argument" is encoded by no_movetime = 2^63.  No argument text can produce it: atoi yields int64 values only, so after
+   parsing the field is either still the marker (no movetime argument was read) or an int64 -- the engine's separate flag
+   moveTimeGiven, in one number *)
+Lemma atoi_int64 s v : atoi s = Some v -> -9223372036854775808 <= v <= 9223372036854775807.
+Proof.
+  unfold atoi. destruct s as [|c r].
+  - discriminate.
+  - set (nb := match c with "-"%char => (true, r) | "+"%char => (false, r) | _ => (false, String c r) end).
+    destruct nb as [neg body]. destruct body as [|c' r']; [discriminate|].
+    destruct (digits_val (String c' r') 0) as [d|]; [|discriminate].
+    destruct ((-9223372036854775808 <=? (if neg then - d else d)) && ((if neg then - d else d) <=? 9223372036854775807)) eqn:E; [|discriminate].
+    intros H. injection H as <-. apply andb_prop in E. destruct E as [E1 E2]. lia.
+Qed.
+Lemma parse_go_movetime toks : forall a a', parse_go toks a = Some a' ->
+  ga_movetime a' = ga_movetime a \/ -9223372036854775808 <= ga_movetime a' <= 9223372036854775807.
+Proof.
+  induction toks as [|t rest IH]; intros a a' H; cbn [parse_go] in H.
+  - injection H as <-. left; reflexivity.
+  - repeat match type of H with
+    | (if ?c then _ else _) = _ => destruct c eqn:?
+    | match int_after rest with _ => _ end = _ => destruct (int_after rest) as [n|] eqn:?; [|discriminate]
+    | match ?x <? 1 with _ => _ end = _ => destruct (x <? 1) eqn:?; [discriminate|]
+    end; try discriminate;
+    try (injection H as <-; left; reflexivity);
+    try (apply IH in H; cbn [ga_movetime] in H; exact H).
+    injection H as <-. right. cbn [ga_movetime].
+    unfold int_after in *. destruct rest as [|v0 rest']; [discriminate|]. eapply atoi_int64; eassumption.
+Qed.
+Lemma parsed_movetime_marker toks a : parse_go toks go_defaults = Some a ->
+  ga_movetime a = no_movetime \/ -9223372036854775808 <= ga_movetime a <= 9223372036854775807.
+Proof. intros H. apply parse_go_movetime in H. exact H. Qed.
+
 Lemma go_defaults_mtg : 1 <= ga_mtg go_defaults.
 Proof. cbn. unfold ExpectedFullMovesToBePlayed. lia. Qed.
 Lemma millis_never_panics w a : 1 <= ga_mtg a -> exists m, millis_for_move w a = Ok m.
